@@ -35,7 +35,7 @@ def run(unit, repo="/repo", verbose=True, summary=None):
             base = BASE.get(unit)
             if r.status == "failures" and base is not None and set(f.ident for f in r.failures) <= base:
                 m["_only_known"] = True
-            if r.status == "ok" and r.unproven:
+            if r.unproven and (r.status == "ok" or (r.status == "failures" and base is not None and set(f.ident for f in r.failures) <= base)):
                 # the driver reports these as undecided (exit 2): missing-splice / opaque-macro rule
                 return m, "undecided", "; ".join(t for _, t in r.unproven)[:300]
             return m, r.status, (r.undecided_reason or "") + " ".join(f.ident[:150] for f in r.failures if base is None or f.ident not in base)[:400]
